@@ -77,7 +77,7 @@ def run(ctx) -> None:
             wide = None
             if it % 25 == 7:
                 # wide store: the number of collected results sits around 32 / 64
-                wide = rng.choice([31, 32, 33, 34, 63, 64, 65, 66])
+                wide = [31, 32, 33, 34, 63, 64, 65, 66, 97][(it // 25) % 9]  # every width in every run
                 sids = [f"s{k:02d}" for k in range((wide + 2) // 3)]
                 nstreams = len(sids)
             axis_named = it % 25 == 13
@@ -104,12 +104,16 @@ def run(ctx) -> None:
                 for s in sids:
                     tests = [("qartod", "vf_probe_test", {"tag": ci + 1})]
                     if wide is not None:
+                        # every result but the very last one is all GOOD/UNKNOWN, the last collected result (a probe)
+                        # carries SUSPECT / FAIL flags: the roll-up has to see result number `wide`
                         k_ = sids.index(s)
                         want_n = 3 if (k_ + 1) * 3 <= wide else wide - k_ * 3
-                        if want_n >= 2:
-                            tests.append(("qartod", "gross_range_test", {"fail_span": [1001, 99006], "suspect_span": [1002, 99004]}))
-                        if want_n >= 3:
-                            tests.append(("axds", "valid_range_test", {"valid_span": [1001, 99004]}))
+                        calm = [("qartod", "gross_range_test", {"fail_span": [0, 99999], "suspect_span": [1, 99998]}),
+                                ("axds", "valid_range_test", {"valid_span": [0, 99999]}),
+                                ("qartod", "spike_test", {"suspect_threshold": 1e9, "fail_threshold": 1e9})]
+                        tests = calm[:want_n]
+                        if s == sids[-1]:
+                            tests = [*calm[: want_n - 1], ("qartod", "vf_probe_test", {"tag": ci + 1})]
                     else:
                         if rng.random() < 0.6:
                             tests.append(("qartod", "gross_range_test", {"fail_span": [1001, 3006], "suspect_span": [1002, 3004]}))
@@ -137,7 +141,7 @@ def run(ctx) -> None:
                 st = NumpyStream(inp=dict(tb.data), **kw)
             write_data, write_axes = rng.random() < 0.5, rng.random() < 0.5
             funcs = {"gross_range_test": q.gross_range_test, "vf_probe_test": q.vf_probe_test,
-                     "valid_range_test": axds.valid_range_test}
+                     "valid_range_test": axds.valid_range_test, "spike_test": q.spike_test}
             pool = [*sids, "vf_probe_test", "gross_range_test", "valid_range_test", q.gross_range_test,
                     q.vf_probe_test, "nomatch", q.spike_test]
             fkind = rng.choice(["none", "none", "include", "exclude", "both", "empty-include", "empty-exclude"])
